@@ -5,6 +5,7 @@
 mod ast;
 mod c03;
 mod c05;
+mod c06;
 mod c08;
 mod common;
 mod corpus;
@@ -69,6 +70,7 @@ fn main() {
     let report = match id.as_str() {
         "C03" => c03::run(&ctx),
         "C05" => c05::run(&ctx),
+        "C06" => c06::run(&ctx),
         "C08" => c08::run(&ctx),
         _ => {
             eprintln!("unknown property id {}", id);
